@@ -195,6 +195,27 @@ def lang_facts(inc, hs, facts):
 CTYPES = {}
 
 
+def linkage(inc, cfg, fnames, bdir, tag):
+    """which linker symbol each function name designates in a C++ unit that includes cfg in this order: 'C' (the plain
+    name, i.e. the C library's function), 'C++' (a mangled name nothing defines) or 'local' (defined in the unit)"""
+    text = ''.join('#include "%s"\n' % h for h in cfg) + 'void* const vcheck_refs[] = {\n' + ''.join('  (void*)&%s,\n' % f for f in fnames) + \
+        '  0 };\nvoid* const* vcheck_keep() { return vcheck_refs; }\n'
+    obj = os.path.join(bdir, 'link_%s.o' % tag)
+    p = subprocess.run(['g++', '-std=gnu++11', '-x', 'c++', '-w', '-fpermissive', '-I' + inc, '-c', '-', '-o', obj], input=text, stdout=subprocess.PIPE, stderr=subprocess.PIPE, text=True)
+    if p.returncode != 0:
+        return None
+    out = subprocess.run(['nm', '-u', obj], stdout=subprocess.PIPE, text=True).stdout
+    os.unlink(obj)
+    syms = set(l.split()[-1] for l in out.splitlines() if l.strip())
+    mangled = {}
+    for sy in syms:
+        m = re.match(r'_Z(\d+)', sy)
+        if m:
+            n = int(m.group(1))
+            mangled[sy[m.end():m.end() + n]] = sy
+    return {f: 'C' if f in syms else 'C++' if f in mangled else 'local' for f in fnames}
+
+
 def tu_text(hs, facts, cxx=False):
     out = ['#include <stddef.h>']
     for h in hs:
@@ -371,6 +392,38 @@ def run(prop, tier):
                 if any(i.startswith('error:') for i in items):
                     items = {i for i in items if i.startswith('error:')}   # assertions after a hard error are consequences
                 failed.setdefault((kind, cfg), {})[lang] = sorted(items)
+    # C++ callers: in every configuration each function name must designate the linker symbol it designates when its
+    # header is included alone (a declaration that ends up outside extern "C" names a function nobody defines)
+    fn_of = {h: sorted(n for n in parse_header(os.path.join(inc, h))[0] if not n.startswith('_')) for h in hs}
+    alone = {}
+    with cf.ThreadPoolExecutor(core.NCPU) as ex:
+        for h, r in zip(hs, ex.map(lambda h: linkage(inc, (h,), fn_of[h], b, 'a%d' % hs.index(h)), hs)):
+            alone[h] = r
+    ljobs = [(ci, kind, cfg) for ci, (kind, cfg) in enumerate(configs) if kind != 'single' and all(alone[h] is not None for h in cfg)]
+
+    def lone(j):
+        ci, kind, cfg = j
+        return j, linkage(inc, cfg, sorted(set(f for h in cfg for f in fn_of[h])), b, 'c%d' % ci)
+    link_bad = {}
+    with cf.ThreadPoolExecutor(core.NCPU) as ex:
+        for (ci, kind, cfg), got in ex.map(lone, ljobs):
+            res.counters['cases'] = res.counters.get('cases', 0) + 1
+            res.counters['transitions'] = res.counters.get('transitions', 0) + 1
+            if got is None:
+                continue      # does not compile: reported by the pass above
+            for h in cfg:
+                for f in fn_of[h]:
+                    if got.get(f) != alone[h][f]:
+                        link_bad.setdefault((kind, cfg), []).append((f, h, alone[h][f], got.get(f)))
+    pair_link = {cfg for (kind, cfg) in link_bad if kind == 'pair'}
+    for (kind, cfg), items in sorted(link_bad.items()):
+        if kind != 'pair':
+            pos = {h: i for i, h in enumerate(cfg)}
+            if any(a in pos and c in pos and pos[a] < pos[c] for (a, c) in pair_link):
+                continue
+        base = ('pair:%s+%s' % cfg) if kind == 'pair' else 'order:%s' % '<'.join(cfg)
+        f, h, was, now = sorted(items)[0]
+        res.viol[('C20', base + ' linkage:' + f)] = {'count': len(items), 'case': base, 'detail': 'in a C++ unit %s (of %s) designates the %s symbol, alone the %s symbol; %d names affected' % (f, h, now, was, len(items)), 'tag': 'c++'}
     res.counters['states'] = len(configs)
     res.counters['nontrivial'] = len(configs)
     pair_fail = {cfg for (kind, cfg) in failed if kind == 'pair'}
@@ -435,7 +488,7 @@ def run(prop, tier):
         e['count'] += 1
     samples = ['pair avtp/aaf/Aaf.h then avtp/aaf/Pcm.h in C99 and C++ with one static assertion per public name of both headers (value when included alone)',
                'full set of %d headers rotated by 7, C++' % len(hs)]
-    core.finish('C20', tier, t0, res, rule='configurations = each header alone, all %d ordered pairs, full set in %d orders - sorted, reversed, rotations and a sequence-covering set of permutations in which every ordered triple of headers occurs in that relative order (thorough: + 200 further permutations and explicit triples through hub headers) x {gcc -std=gnu99, g++ -std=gnu++11, gcc -std=c99, g++ -std=c++98, clang for an MSVC target (predefines _MSC_VER)}; each name also inside an expression (2*N, N*2, 0-N against the parenthesised form), each type also with its alignment; per header a probe structure declared after it must have the layout and stored bytes it has without the header; each TU includes the headers and asserts every public integer name (%d facts: macros, enumerators, sizeof) against its value when the header is included alone; a set/triple failure explained by a failing ordered pair inside it is attributed to the pair' % (len(hs) * (len(hs) - 1), len(full) if tier != 'thorough' else nrot + 2, nfacts),
+    core.finish('C20', tier, t0, res, rule='configurations = each header alone, all %d ordered pairs, full set in %d orders - sorted, reversed, rotations and a sequence-covering set of permutations in which every ordered triple of headers occurs in that relative order (thorough: + 200 further permutations and explicit triples through hub headers) x {gcc -std=gnu99, g++ -std=gnu++11, gcc -std=c99, g++ -std=c++98, clang for an MSVC target (predefines _MSC_VER)}; each name also inside an expression (2*N, N*2, 0-N against the parenthesised form), each type also with its alignment; in C++ every function name must designate the linker symbol it designates when its header is included alone (object file per configuration, undefined symbols read back); per header a probe structure declared after it must have the layout and stored bytes it has without the header; each TU includes the headers and asserts every public integer name (%d facts: macros, enumerators, sizeof) against its value when the header is included alone; a set/triple failure explained by a failing ordered pair inside it is attributed to the pair' % (len(hs) * (len(hs) - 1), len(full) if tier != 'thorough' else nrot + 2, nfacts),
                 bounds={'headers': len(hs), 'configurations': len(configs), 'languages': 5, 'facts': nfacts, 'facts_not_asserted_in_a_language_where_they_do_not_hold_alone': dropped, 'headers_left_out_of_the_msvc_front_end_for_lack_of_a_system_header': sorted(h for l, h in nohost), 'masked_by_pair': masked},
                 assumptions=['GNU C as the project uses it (zero-length arrays accepted); -pedantic diagnostics are not violations', 'pairwise conflicts plus the sampled larger sets; a conflict needing three specific headers outside the enumerated sets is not seen in quick'],
                 recipe={'engine': 'c20'}, samples=samples, extra_cov={'compilations': len(jobs), 'planted_bug_selftest': 'a deliberately wrong value for %s %s made its translation unit fail, as required' % k0})
@@ -458,4 +511,14 @@ def replay(prop, case):
         p = subprocess.run(cmd + ['-fsyntax-only', '-w', '-I' + inc, '-'], input=tu_text(cfg_l, facts_l[lang]), stdout=subprocess.PIPE, stderr=subprocess.PIPE, text=True)
         print('%s: rc=%d %s' % (lang, p.returncode, p.stderr.splitlines()[0] if p.stderr else ''))
         rc |= p.returncode != 0
+    # linker symbols of the function names in a C++ unit, against each header alone
+    fn_of = {h: sorted(n for n in parse_header(os.path.join(inc, h))[0] if not n.startswith('_')) for h in cfg}
+    alone = {h: linkage(inc, (h,), fn_of[h], b, 'ra') for h in cfg}
+    got = linkage(inc, tuple(cfg), sorted(set(f for h in cfg for f in fn_of[h])), b, 'rc')
+    if got is not None and all(alone[h] is not None for h in cfg):
+        for h in cfg:
+            for f in fn_of[h]:
+                if got.get(f) != alone[h][f]:
+                    print('c++ linkage: %s designates the %s symbol, alone the %s symbol' % (f, got.get(f), alone[h][f]))
+                    rc = 1
     return 1 if rc else 0
